@@ -37,6 +37,11 @@ type iterator struct {
 	closer io.Closer
 
 	iteratorOptions IteratorOptions
+
+	// numCursorsInit is the number of segment/lower-level cursors that had
+	// entries in the range when the iterator was started, before any
+	// leading deletion was skipped.
+	numCursorsInit int
 }
 
 // A cursor rerpresents a logical entry position inside a segment in a
@@ -191,6 +196,8 @@ func (ss *segmentStack) startIterator(
 	// Heap-ify the cursors.
 
 	heap.Init(iter)
+
+	iter.numCursorsInit = len(iter.cursors)
 
 	if !iteratorOptions.IncludeDeletions {
 		entryEx, _, _, _ := iter.CurrentEx()
@@ -453,7 +460,11 @@ func (iter *iterator) Pop() interface{} {
 // when there's only a single segment, then the heap can be avoided by
 // using a simpler, faster iteratorSingle implementation.
 func (iter *iterator) optimize() (Iterator, error) {
-	if len(iter.cursors) != 1 {
+	// The single cursor optimizations are only safe when no other
+	// segment contributed entries to the range: a cursor that was
+	// exhausted while skipping a leading deletion still shadows keys
+	// of the remaining segment after a backwards SeekTo().
+	if len(iter.cursors) != 1 || iter.numCursorsInit != 1 {
 		return iter, nil
 	}
 
